@@ -351,12 +351,13 @@ func processScenario(v variant, bound int) *vx.Scenario {
 		sent := false
 		var sentFrames []repFrame
 		// the whole drive runs on its own thread: thread 0 must return the final check whatever happens
+		vsched.SetExploring(false)
 		vsched.GoQuiet("driver", func() {
 			// connection order fixes the numbering seen by OnConnection: conn2 first, then conn1
-			// (settle after every connect: serverConn.connect stores the socket in conn.sockets only after
-			// the CONNECT reply went out and the connection handlers were started, so a packet sent right
-			// after the reply can find no socket and gets the connection closed as "invalid state" - a
-			// connect/first-event race that is C01's business, not a consequence of the malformed input)
+			// (settle after every connect, so that the set-up is over before the next frame: races between a
+			// CONNECT reply and the first packets after it are the business of C01/C06, not a consequence
+			// of the malformed input; the set-up runs on the default schedule, the deviation budget is
+			// spent on the input and its aftermath)
 			f2.ConnectNS("/")
 			vsched.Await(func() bool { return nreg == 1 })
 			vrig.Settle(time.Second)
@@ -395,6 +396,7 @@ func processScenario(v variant, bound int) *vx.Scenario {
 			}
 			frames := v.frames(ackID)
 			sv.Do(func() { sentFrames = frames })
+			vsched.SetExploring(true)
 			vsched.GoQuiet("conn1-transport", func() {
 				for _, fr := range frames {
 					if fr.Bin {
@@ -510,7 +512,7 @@ func scenarios(tier string) []*vx.Scenario {
 		out = append(out, processScenario(v, bound))
 	}
 	for _, rp := range clientReps() {
-		out = append(out, clientScenario(rp, 1)) // the polling link makes these executions long: bound 1 in both tiers
+		out = append(out, clientScenario(rp, bound))
 	}
 	return out
 }
